@@ -214,8 +214,14 @@ pub fn run(ctx: &Ctx) -> i32 {
         gen::for_shard(&fams, shard, n, |case| {
             let mut rng = Rng::new(ctx.seed, case.fp());
             let g = GEOMS[case.index % GEOMS.len()];
-            let fronts = [Front::RawGeom(g.0, g.1), MAP_FRONTS[case.index % MAP_FRONTS.len()]];
-            let nf = if case.kv.len() > 20_000 || case.family.ends_with("-subsets") || case.family == "huge-delta" { 1 } else { 2 };
+            let mut fronts = vec![Front::RawGeom(g.0, g.1), MAP_FRONTS[case.index % MAP_FRONTS.len()]];
+            if case.family == "duplicated-wide-fans" || case.family == "cache-digest-collision" {
+                // what these families probe happens inside the node cache: every hook geometry
+                for &(r, c) in GEOMS.iter() {
+                    fronts.push(Front::RawGeom(r, c));
+                }
+            }
+            let nf = if case.kv.len() > 20_000 || case.family.ends_with("-subsets") || case.family == "huge-delta" { 1 } else { fronts.len() };
             for &front in fronts.iter().take(nf) {
                 let tag = format!("{:?}", front);
                 match guard(|| build::build(front, &case.kv)) {
